@@ -1,4 +1,56 @@
+//! tokio re-exported for the shadow build of the agent, with two seams:
+//! * `task::block_in_place(f)` = `f()`, so that the agent can run on a current_thread runtime with a
+//!   paused clock;
+//! * `spawn` (and `task::spawn`) can delay the first poll of the spawned task by a seeded number of
+//!   virtual milliseconds (`chaos::set`). On a multi-threaded runtime the order in which freshly
+//!   spawned tasks first run is not fixed; on the single-threaded simulation runtime it is, and this
+//!   seam gives the simulator that choice back. Off (no delay) unless a simulation turns it on.
 pub use real_tokio::*;
+
+pub mod chaos {
+    use std::cell::Cell;
+    thread_local! {
+        static STATE: Cell<Option<u64>> = const { Cell::new(None) };
+    }
+    /// `Some(seed)`: delay first polls of spawned tasks on this thread, decided by a PRNG from `seed`; `None`: off.
+    pub fn set(seed: Option<u64>) {
+        STATE.with(|s| s.set(seed.map(|x| x | 1)));
+    }
+    /// Delay (virtual ms) for the next spawned task: 0 three times out of four, else 1-3.
+    pub fn next_delay() -> u64 {
+        STATE.with(|s| match s.get() {
+            None => 0,
+            Some(mut x) => {
+                x ^= x << 13;
+                x ^= x >> 7;
+                x ^= x << 17;
+                s.set(Some(x | 1));
+                match (x >> 20) % 8 {
+                    0 => 1,
+                    1 => 2 + (x >> 40) % 2,
+                    _ => 0,
+                }
+            }
+        })
+    }
+}
+
+pub fn spawn<F>(future: F) -> real_tokio::task::JoinHandle<F::Output>
+where
+    F: std::future::Future + Send + 'static,
+    F::Output: Send + 'static,
+{
+    let d = chaos::next_delay();
+    if d == 0 {
+        real_tokio::spawn(future)
+    } else {
+        real_tokio::spawn(async move {
+            real_tokio::time::sleep(std::time::Duration::from_millis(d)).await;
+            future.await
+        })
+    }
+}
+
 pub mod task {
     pub use real_tokio::task::*;
     pub fn block_in_place<F, R>(f: F) -> R
@@ -6,5 +58,12 @@ pub mod task {
         F: FnOnce() -> R,
     {
         f()
+    }
+    pub fn spawn<F>(future: F) -> JoinHandle<F::Output>
+    where
+        F: std::future::Future + Send + 'static,
+        F::Output: Send + 'static,
+    {
+        super::spawn(future)
     }
 }
